@@ -71,7 +71,8 @@ pub fn texts(rows: &[V]) -> String {
 
 /// The same command line in another documented spelling (variant 1: the other long name of every option that has
 /// one; 2: short options with the value as a separate word; 3: long options with the value as a separate word;
-/// 4: short options with the value attached). Arguments are expected in the `--name=value` / `--flag` form.
+/// 4: short options with the value attached; 5 and 6: the spellings MIXED within one command line - every other
+/// occurrence of an option in its second long name / as a short option with a separate word). Arguments are expected in the `--name=value` / `--flag` form.
 /// A value-less `--group-by`/`--merge` never ends up in front of another word.
 pub fn respell(args: &[String], variant: usize) -> Vec<String> {
     const NAMES: [(&str, &str, &str); 12] = [
@@ -90,7 +91,20 @@ pub fn respell(args: &[String], variant: usize) -> Vec<String> {
     ];
     let mut out: Vec<String> = Vec::new();
     let mut bare_group: Option<String> = None;
+    let mixed = variant >= 5;
+    let mut occurrence = 0usize;
     for a in args {
+        let variant = if mixed {
+            occurrence += 1;
+            match (variant, occurrence % 2) {
+                (5, 1) => 1,
+                (5, _) => 0,
+                (_, 1) => 0,
+                _ => 2,
+            }
+        } else {
+            variant
+        };
         let (name, value) = match a.split_once('=') {
             Some((n, v)) if n.starts_with("--") => (n, Some(v)),
             _ => (a.as_str(), None),
